@@ -156,9 +156,9 @@ func ReadUint16Slice(r Reader, c []uint16) (n int64, err error) {
 		c[i] = binary.LittleEndian.Uint16(slice[j:])
 	}
 
-	// Discard what was peeked
+	// Discard what was decoded (the peeked slice may end with a partial word)
 	var inc int
-	if inc, err = r.Discard(len(slice)); err != nil {
+	if inc, err = r.Discard(buffered << 1); err != nil {
 		return n + int64(inc), err
 	}
 
@@ -237,9 +237,9 @@ func ReadUint32Slice(r Reader, c []uint32) (n int64, err error) {
 		c[i] = binary.LittleEndian.Uint32(slice[j:])
 	}
 
-	// Discard what was peeked
+	// Discard what was decoded (the peeked slice may end with a partial word)
 	var inc int
-	if inc, err = r.Discard(len(slice)); err != nil {
+	if inc, err = r.Discard(buffered << 2); err != nil {
 		return n + int64(inc), err
 	}
 
@@ -318,9 +318,9 @@ func ReadUint64Slice(r Reader, c []uint64) (n int64, err error) {
 		c[i] = binary.LittleEndian.Uint64(slice[j:])
 	}
 
-	// Discard what was peeked
+	// Discard what was decoded (the peeked slice may end with a partial word)
 	var inc int
-	if inc, err = r.Discard(len(slice)); err != nil {
+	if inc, err = r.Discard(buffered << 3); err != nil {
 		return n + int64(inc), err
 	}
 
